@@ -2,7 +2,7 @@
 From Coq Require Import List NArith ZArith Bool Strings.Byte Strings.String Permutation.
 Import ListNotations.
 Require Import Params Iauth ReloadEq.
-Require Mon01 Local ReloadSim.
+Require Mon01 Local ReloadSim SlotReuse.
 Local Open Scope list_scope.
 
 (* The hypothesis  length (slots (tb s)) + length svs <= max_slots  is the 32-slot limit of the per-client masks (D27). *)
@@ -16,13 +16,37 @@ Theorem reload_is_like_a_fresh_start : forall c s svs rs t,
 Proof. exact reload_like_fresh. Qed.
 Print Assumptions reload_is_like_a_fresh_start.
 
-(* a reload touches nothing else and writes nothing to the channel *)
+(* a reload touches nothing else and writes nothing to the channel - except that the pending requests forget what they recorded
+   about the slots the reload has just given to a new occupant (D30, repaired; `forget` clears bits of sent / more / okm and changes
+   no other field: ReloadEq.forget_fields; `refilled` = the slots empty before and occupied after: SlotReuse.refilled_spec) *)
 Theorem reload_touches_only_the_tables : forall c s svs rs t,
   let s' := fst (step_ev c s (Reload svs rs t)) in
-  rules (tb s') = rs /\ slots (tb s') = services_changed (slots (tb s)) svs /\ reqs s' = reqs s /\ next s' = next s /\ tmo s' = t /\
+  rules (tb s') = rs /\ slots (tb s') = services_changed (slots (tb s)) svs /\
+  reqs s' = map (forget (refilled (slots (tb s)) (services_changed (slots (tb s)) svs) 0)) (reqs s) /\
+  next s' = next s /\ tmo s' = t /\
   snd (step_ev c s (Reload svs rs t)) = [].
 Proof. exact reload_tables. Qed.
 Print Assumptions reload_touches_only_the_tables.
+
+(* a slot that was empty before the reload and holds a service after it starts clean: no pending request records that its occupant
+   was asked, wants a continuation, or answered OK (those bits belonged to a former occupant of the slot) *)
+Theorem a_refilled_slot_starts_clean : forall c s svs rs t,
+  let s' := fst (step_ev c s (Reload svs rs t)) in
+  forall r' k sv, In r' (reqs s') ->
+    nth_error (slots (tb s)) k = Some None ->
+    nth_error (slots (tb s')) k = Some (Some sv) ->
+    N.testbit (sent r') (N.of_nat k) = false /\ N.testbit (more r') (N.of_nat k) = false /\ N.testbit (okm r') (N.of_nat k) = false.
+Proof. exact SlotReuse.reload_forgets_refilled_slots. Qed.
+Print Assumptions a_refilled_slot_starts_clean.
+
+(* and nothing a request still waits for is lost: in every state reached from start-up, the slots a reload is about to refill are
+   awaited by no pending request (a slot with an outstanding query keeps a positive reference count and is never released:
+   RefInv.RefInv), so `forget` clears no bit of a slot whose answer is still owed *)
+Theorem a_refilled_slot_is_awaited_by_nobody : forall c services rs0 t0 evs svs r i,
+  let s := fold_left (fun s e => fst (step_ev c s e)) evs (init c services rs0 t0) in
+  In r (reqs s) -> In i (refilled (slots (tb s)) (services_changed (slots (tb s)) svs) 0) -> N.testbit (refm r) i = false.
+Proof. exact SlotReuse.reachable_refilled_slot_is_not_awaited. Qed.
+Print Assumptions a_refilled_slot_is_awaited_by_nobody.
 
 (* the query pass sees the slot vector only through its configured entries: unconfigured leftovers are never queried *)
 Theorem queries_depend_on_configured_services_only : forall ss slot is_pw r outs efs,
